@@ -106,3 +106,6 @@ func GhostLen(name string) int     { panic(Skip{"ghost log " + name}) }
 
 // GhostBytes returns entry i of the log (negative i counts from the end).
 func GhostBytes(name string, i int) []byte { panic(Skip{"ghost log " + name}) }
+
+// GhostIs: v equals the single value recorded in the ghost log (verifier only).
+func GhostIs(name string, v interface{}) bool { panic(Skip{"ghost log " + name}) }
